@@ -132,6 +132,7 @@ class Exec:
     def mkctx(self, st, **kw):
         c = Ctx(pre=self.entry, cur=st, args=self.args)
         c.skolems = self.skolems
+        c.contract = self.c
         for k, v in kw.items():
             setattr(c, k, v)
         if self.loop_stack:
@@ -316,7 +317,8 @@ class Exec:
             ctx = self.mkctx(st)
             ctx.exc = out.val
             if spec is None:
-                self.oblige(st, 'no-raise:' + out.cls, z3.BoolVal(False), 'post-exc', ctx)
+                hints = self.prove_lemmas(st, c.post_hints(ctx), ctx, 'post-exc') if c.post_hints else []
+                self.oblige(st, 'no-raise:' + out.cls, z3.BoolVal(False), 'post-exc', ctx, extra=hints)
             else:
                 if c.ghost_on_return:
                     c.ghost_on_return(st, ctx)
@@ -771,13 +773,23 @@ class Exec:
                 self.generic_visit(n)
 
             def visit_Await(self, n):
-                fields.update(ex.c.rely_fields)
+                if not ex.await_never_suspends(n):
+                    fields.update(ex.c.rely_fields)
                 self.generic_visit(n)
 
         v = Vis()
         for s_ in stmts:
             v.visit(s_)
         return names, fields
+
+    def await_never_suspends(self, n):
+        """an await on a coroutine of the package whose contract was checked to hold no suspension point"""
+        v = n.value
+        if isinstance(v, ast.Call) and isinstance(v.func, ast.Attribute):
+            cands = self.reg.candidates(v.func.attr)
+            return bool(cands) and all(getattr(cc, 'syntactic', None) is not None and not cc.suspends
+                                       for cc in cands)
+        return False
 
     def dotted(self, n):
         parts = []
